@@ -66,4 +66,21 @@ PROPS = {
         exhaustive_note="all strings of length <= 6 (597,871) / <= 7 (5,380,840) over {a,1,space,:,(,),-,>,LF} for the invariants; all A of length <= 4 (7,381) / <= 5 (66,430) x 20 probe files for the law",
         assumptions=["the law is checked under its literal reading (records and errors; an error is identified by its line without terminators); the weaker Ok-records-only reading is reported alongside"],
     ),
+    "C07": dict(
+        level="exploration",
+        stages=native(16000, 320000),
+        rule="case = (generated mapping, text trace) where every line's kind is known by construction (throwable, 'Caused by:' cause, frame with tab/space indent, opaque: '... n more', Native Method/Unknown Source, blank, throwable-looking text, arbitrary Unicode text that cannot be a frame or cause under any reading), LF/CRLF, with/without final newline, mapper and cache, compared with the line-by-line model; every 4th case: arbitrary Unicode text against an empty mapping and a mapping over a disjoint name universe (identity up to terminator normalisation); distinct = distinct (mapping, input) with >=1 rewritten and >=1 passed-through line, or identity inputs containing '(' ')' ':' and multi-byte characters",
+        min={"quick": {"traces_with_rewritten_and_passed_lines": 5000, "lines_caused_by": 1000, "lines_opaque": 1000, "lines_frame": 1000, "lines_throwable": 1000,
+                       "identity_inputs_with_delimiters_and_multibyte": 1000, "lines_rewritten_expected": 10000},
+             "thorough": {}},
+        assumptions=[DOMAIN, ALIGN, "text whose classification would depend on parser quirks (e.g. 'at a.b(F:+1)') is only used with the identity monitor, which needs no classification",
+                     "a lone CR is not a line terminator for the text API (str::lines), matching the statement's 'CRLF input'"],
+    ),
+    "C08": dict(
+        level="exploration",
+        stages=native(8000, 160000),
+        rule="case = (generated mapping, typed trace of depth 0..4 over mapped and platform exception classes, mapped/unmapped frames, with/without files) through mapper and cache: depth, every throwable (remapped or kept), every frame list (model frames or the frame itself) checked against M; for canonical traces additionally print(typed(T)) == text(print(T)); distinct = distinct (mapping, trace, implementation) having >=1 unknown-class throwable and >=1 resolved frame",
+        min={"quick": {"traces_with_unknown_throwable_and_resolved_frame": 1000, "canonical_pairs_compared": 10000, "levels_checked": 10000}, "thorough": {}},
+        assumptions=[DOMAIN, ALIGN, "canonical = every cause level has an exception, messages non-empty single-line without surrounding whitespace, files present and colon-free"],
+    ),
 }
